@@ -8,6 +8,7 @@ import (
 	"encoding/json"
 	"errors"
 	"fmt"
+	"strings"
 	"time"
 
 	"github.com/btcsuite/btcd/btcec/v2"
@@ -102,6 +103,18 @@ func (sc *Scen) randomPlan() Plan {
 	if r.Chance(8) {
 		p.RecoverPay = []*string{nil}
 	}
+	if m := sc.current(); m != nil && m.Data.StartingBlockHeight > 0 && r.Chance(25) {
+		// first attempt fails inside the window, the tip then sits exactly on a boundary
+		a := m.Data.StartingBlockHeight
+		win := uint32(504)
+		if sc.chain == "lbtc" {
+			win = 60
+		}
+		b := a + win - 1 + uint32(r.Intn(3))
+		p.Pay = []*string{nil}
+		p.Height = []*uint32{u32p(a + win - 1), u32p(b)}
+		return p
+	}
 	switch r.Intn(12) {
 	case 0:
 		p.Pay = []*string{nil} // one failure, then success
@@ -144,6 +157,17 @@ var directedScenarios = []directed{
 	{"out_receiver", "lbtc", []string{"request", "paid_fee", "csv"}},
 	{"in_sender", "btc", []string{"start", "in_agreement", "coop"}},
 	{"in_sender", "lbtc", []string{"start", "in_agreement", "cancel", "csv"}},
+	// payment window boundaries (Liquid 60, Bitcoin 504) at the time of the payment
+	{"out_sender", "lbtc", []string{"start", "out_agreement", "otb", "tip=anchor+59", "tx_confirmed"}},
+	{"out_sender", "lbtc", []string{"start", "out_agreement", "otb", "tip=anchor+60", "tx_confirmed"}},
+	{"in_receiver", "lbtc", []string{"request", "otb", "tip=anchor+60", "tx_confirmed"}},
+	{"in_receiver", "lbtc", []string{"request", "tip=anchor+59", "otb", "tx_confirmed"}},
+	{"in_receiver", "lbtc", []string{"request", "tip=anchor+60", "otb"}},
+	{"in_receiver", "lbtc", []string{"request", "tip=anchor-1", "otb"}},
+	{"out_sender", "btc", []string{"start", "out_agreement", "otb", "tip=anchor+504", "tx_confirmed"}},
+	{"out_sender", "btc", []string{"start", "out_agreement", "otb", "tip=anchor+505", "tx_confirmed"}},
+	{"in_receiver", "btc", []string{"request", "tip=anchor+503", "otb", "tx_confirmed"}},
+	{"in_receiver", "btc", []string{"request", "tip=anchor+504", "otb"}},
 	// a peer answering with the agreement type of the other swap direction
 	{"out_sender", "btc", []string{"start", "in_agreement", "out_agreement"}},
 	{"in_sender", "btc", []string{"start", "out_agreement", "in_agreement"}},
@@ -163,6 +187,15 @@ var directedScenarios = []directed{
 }
 
 func (sc *Scen) stepNamed(n string) {
+	// "tip=anchor+N": set the chain tip relative to the swap's persisted anchor / start height
+	if strings.HasPrefix(n, "tip=anchor") {
+		var off int64
+		fmt.Sscanf(strings.TrimPrefix(n, "tip=anchor"), "%d", &off)
+		if m := sc.current(); m != nil {
+			sc.env.CurHeight = uint32(int64(m.Data.StartingBlockHeight) + off)
+		}
+		return
+	}
 	switch n {
 	case "start":
 		sc.stepStart()
@@ -554,6 +587,21 @@ func (sc *Scen) stepRandom() {
 
 func (sc *Scen) advanceChain() {
 	r := sc.r
+	// boundary-directed: put the tip exactly around the payment window of the swap's anchor
+	if m := sc.current(); m != nil && m.Data.StartingBlockHeight > 0 && r.Chance(40) {
+		a := m.Data.StartingBlockHeight
+		win := uint32(504)
+		if sc.chain == "lbtc" {
+			win = PickU32(r, []uint32{60, 30})
+		}
+		off := PickI(r, []int64{-1, 0, 1, int64(win) - 1, int64(win), int64(win) + 1})
+		h := int64(a) + off
+		if h < 0 {
+			h = 0
+		}
+		sc.env.CurHeight = uint32(h)
+		return
+	}
 	switch r.Intn(10) {
 	case 0:
 		sc.env.CurHeight += uint32(r.Range(25, 70)) // around the Liquid window
@@ -566,7 +614,9 @@ func (sc *Scen) advanceChain() {
 	}
 }
 
-func runScenario(seed uint64, idx int, dbpath string) (sc *Scen, err error) {
+func PickU32(r *Rng, xs []uint32) uint32 { return xs[r.Intn(len(xs))] }
+
+func runScenario(seed uint64, idx int, dbpath string, focus string) (sc *Scen, err error) {
 	r := NewRng(seed)
 	env := newEnv(r)
 	db, err := bbolt.Open(dbpath, 0o600, &bbolt.Options{Timeout: 2 * time.Second, NoSync: true})
